@@ -257,4 +257,88 @@ theorem max_returns_an_argument (args : List Val) (s : BState) (v : Val) (s' : B
 theorem abs_dec_digits (x d : Dec) (h : Dec.abs' x = .ok d) : d.digits ≤ 28 := (dec_ops_fix_digits x x d).2.2.2.2.2 h
 
 
+
+/-! ### `sum` over decimals and `round(x, n)` stay within 28 digits -/
+
+/-- adding a decimal to an int, a bool or a decimal goes through the 28-digit context -/
+theorem add_to_dec_digits (h : Heap) (acc : Val) (y : Dec) (cy : Bool) (v : Val) (h' : Heap)
+    (hacc : ∃ a, toDec? acc = some a) (hh : pyAdd h acc (.dec y cy) = .ok (v, h')) :
+    ∃ d, v = .dec d false ∧ d.digits ≤ 28 := by
+  obtain ⟨a, ha⟩ := hacc
+  have hi : toInt? (.dec y cy) = none := rfl
+  have hd : toDec? (.dec y cy) = some y := rfl
+  unfold pyAdd at hh
+  rw [hi, hd, ha] at hh
+  have hh' : (liftDec (Dec.add a y)).map (·, h) = .ok (v, h') := by
+    cases hti : toInt? acc <;> simp only [hti] at hh <;> exact hh
+  cases hm : liftDec (Dec.fix (Dec.addExact a y)) with
+  | error e => simp [Dec.add, hm, Except.map] at hh'
+  | ok r =>
+    simp [Dec.add, hm, Except.map] at hh'
+    rw [← hh'.1]; exact liftDec_fix_digits _ _ hm
+
+/-- the running total of `sum` over decimals stays a 28-digit decimal -/
+theorem sum_go_digits : ∀ (xs : List Val) (acc : Val) (h : Heap) (v : Val) (h' : Heap),
+    (∀ x ∈ xs, ∃ d c, x = .dec d c) → (∃ d, acc = .dec d false ∧ d.digits ≤ 28) →
+    xs.foldlM (fun (acc : Val × Heap) x => pyAdd acc.2 acc.1 x) (acc, h) = .ok (v, h') →
+    ∃ d, v = .dec d false ∧ d.digits ≤ 28
+  | [], acc, h, v, h', _, hacc, hr => by
+    simp only [List.foldlM, pure, Except.pure, Except.ok.injEq, Prod.mk.injEq] at hr
+    rw [← hr.1]; exact hacc
+  | x :: xs, acc, h, v, h', hx, hacc, hr => by
+    obtain ⟨d, c, rfl⟩ := hx x (List.mem_cons_self ..)
+    simp only [List.foldlM, bind, Except.bind] at hr
+    split at hr
+    · cases hr
+    · rename_i p hp
+      obtain ⟨d0, rfl, _⟩ := hacc
+      exact sum_go_digits xs p.1 p.2 v h' (fun y hy => hx y (List.mem_cons_of_mem _ hy))
+        (add_to_dec_digits h _ d c p.1 p.2 ⟨d0, rfl⟩ hp) hr
+
+/-- **`sum` over a non-empty list of decimals is a decimal of at most 28 significant digits** (each partial sum goes
+    through the context: 0 + x₁ is already a decimal), however long the list and however large its elements -/
+theorem sum_of_decimals_digits (a : Nat) (xs : List Val) (s : BState) (v : Val) (s' : BState)
+    (hl : s.heap.get? a = some (.list xs)) (hne : xs ≠ []) (hx : ∀ x ∈ xs, ∃ d c, x = .dec d c)
+    (h : b_sum [.ref a] s = .ok (v, s')) : ∃ d, v = .dec d false ∧ d.digits ≤ 28 := by
+  unfold b_sum at h
+  simp only [hl] at h
+  split at h
+  · rename_i v0 h0 hr
+    simp only [ret, Except.ok.injEq, Prod.mk.injEq] at h
+    rw [← h.1]
+    cases xs with
+    | nil => exact absurd rfl hne
+    | cons x xs =>
+      obtain ⟨d, c, rfl⟩ := hx x (List.mem_cons_self ..)
+      simp only [List.foldlM, bind, Except.bind] at hr
+      split at hr
+      · cases hr
+      · rename_i p hp
+        exact sum_go_digits xs p.1 p.2 v0 h0 (fun y hy => hx y (List.mem_cons_of_mem _ hy))
+          (add_to_dec_digits s.heap _ d c p.1 p.2 ⟨Dec.ofInt 0, rfl⟩ hp) hr
+  · cases h
+
+theorem quantize_digits (d : Dec) (e : Int) (r : Dec) (h : Dec.quantize d e = .ok r) : r.digits ≤ 28 := by
+  unfold Dec.quantize at h
+  simp only [] at h
+  repeat' split at h
+  all_goals first | (cases h; done) | exact Dec.fix_digits _ r h
+
+/-- **`round(x, n)` of a decimal is a decimal of at most 28 digits** (it is `quantize` under the default context, which
+    refuses — InvalidOperation — a result that would need more) -/
+theorem round_digits_arg (d : Dec) (c : Bool) (nd v : Val) (hnd : nd ≠ .none) (h : bRound [.dec d c, nd] = .ok v) :
+    ∃ r, v = .dec r true ∧ r.digits ≤ 28 := by
+  unfold bRound at h
+  simp only [] at h
+  cases hn : pyInt nd with
+  | error e =>
+    cases nd <;> first | exact absurd rfl hnd | (simp [hn, Except.map] at h)
+  | ok k =>
+    rw [hn] at h
+    simp only [Except.map] at h
+    split at h
+    · rename_i r hr
+      cases h
+      exact ⟨r, rfl, quantize_digits _ _ _ hr⟩
+    · cases h
 end SqProps.C04
